@@ -212,6 +212,8 @@ class Analyzer:
         self.path_limit = path_limit
         self.stats = defaultdict(int)
         self.undecided = {}
+        self.split_shifts = False
+        self.invariants = {}   # adt id -> {field index: (lo, hi)} checked at every construction site
         self.site_log = {}
         self.analysed_fns = set()
         self.type_inv = {}
@@ -397,8 +399,22 @@ class Analyzer:
         p2 = False
         if op in ("Add", "AddWithOverflow", "AddUnchecked"):
             lo, hi = a["lo"] + b["lo"], a["hi"] + b["hi"]
+            for x, y in ((a, b), (b, a)):
+                sx = x.get("s")
+                # (K - u) + v with v < u  is  < K ; with v <= u it is <= K
+                if isinstance(sx, tuple) and sx[0] == "Sub" and isinstance(sx[1], tuple) and sx[1][0] == "c" and y.get("s") is not None and self._facts:
+                    if ("lt", y["s"], sx[2]) in self._facts:
+                        hi = min(hi, sx[1][1] - 1)
+                    elif ("le", y["s"], sx[2]) in self._facts:
+                        hi = min(hi, sx[1][1])
         elif op in ("Sub", "SubWithOverflow", "SubUnchecked"):
             lo, hi = a["lo"] - b["hi"], a["hi"] - b["lo"]
+            if a.get("s") is not None and b.get("s") is not None and self._facts:
+                # a - b with b <= a (b < a) established on this path
+                if ("lt", b["s"], a["s"]) in self._facts:
+                    lo = max(lo, 1)
+                elif ("le", b["s"], a["s"]) in self._facts:
+                    lo = max(lo, 0)
             sb = b.get("s")
             if a.get("s") is not None and isinstance(sb, tuple) and a["lo"] >= 0 and (
                     (sb[0] == "BitAnd" and a["s"] in sb[1:]) or (sb[0] in ("Rem", "Shr", "Div") and sb[1] == a["s"])):
@@ -460,6 +476,8 @@ class Analyzer:
             tag = (base, sa, sb)
             if tag_depth(tag) > 2:
                 tag = None
+        if lo == hi:
+            tag = ("c", lo)
         fp2 = False
         if tag is not None and self._facts and tag in self._facts:
             flo, fhi = self._facts[tag][:2]
@@ -879,14 +897,16 @@ def _analyze(self, fn, args, chain=(), subst=None, facts=None):
                 work.append((tb0, dst, dtc, dnp))
             deferred = []
             continue
-        b, st, tctrl, onpath = work.pop()
+        item = work.pop()
+        b, st, tctrl, onpath = item[:4]
+        start = item[4] if len(item) > 4 else 0
         steps += 1
         if steps > self.path_limit:
             summ.ret = join(summ.ret, top(True))
             summ.returns = True
             self.stats["path_limit_hits"] += 1
             break
-        if b in headers and b not in onpath:
+        if b in headers and b not in onpath and not start:
             # first arrival at a loop header on this path: havoc what the loop modifies
             hdr_entry.setdefault(b, []).append((st, tctrl, onpath))
             st = dict(st)
@@ -940,16 +960,38 @@ def _analyze(self, fn, args, chain=(), subst=None, facts=None):
                     st[l] = nv
         fp = (b, tctrl, bool(st.get("#tc")), st.get("#sw"), tuple(sorted(((k, freeze(v)) for k, v in st.items() if isinstance(k, int)), key=lambda x: x[0])),
               tuple(sorted((repr(k), v) for k, v in (st.get("#facts") or {}).items())))
-        if fp in seen:
-            continue
-        seen.add(fp)
+        if not start:
+            if fp in seen:
+                continue
+            seen.add(fp)
         st = dict(st)
         self._facts = st.get("#facts")
         blk = fn.blocks[b]
         for i, s in enumerate(blk["s"]):
+            if i < start:
+                continue
             if s["k"] == "assign":
+                if self.split_shifts and s["rv"]["k"] == "bin" and s["rv"]["op"] == "Shr" and "p" not in s["lhs"]:
+                    cases = self._shift_cases(fn, st, s["rv"])
+                    if cases:
+                        # x = y >> c with a handful of possible results: one path per result, y refined to the matching slice
+                        for kk, refined in cases[1:]:
+                            st2 = dict(st)
+                            self._store_refined(fn, st2, s["rv"]["a"], refined)
+                            st2[s["lhs"]["l"]] = const(kk, refined["t"])
+                            work.append((b, st2, tctrl, onpath, i + 1))
+                        kk, refined = cases[0]
+                        self._store_refined(fn, st, s["rv"]["a"], refined)
+                        st[s["lhs"]["l"]] = const(kk, refined["t"])
+                        continue
                 v = self.eval_rv(fn, st, s["rv"], s)
                 self.write_place(fn, st, s["lhs"], v)
+                if self.invariants and s["rv"]["k"] == "agg" and s["rv"].get("adt") in self.invariants and v["k"] == "agg":
+                    for fi, (ilo, ihi) in self.invariants[s["rv"]["adt"]].items():
+                        fv = v["f"].get(fi)
+                        safe = fv is not None and fv["k"] == "int" and ilo <= fv["lo"] and fv["hi"] <= ihi
+                        self._record(summ, fn, b, i, "Invariant", f"{s['rv']['adt'].split('::')[-1]}.{fi} in [{ilo}, {ihi}]", safe, True, chain2,
+                                     f"constructed with a value in [{fv['lo']}, {fv['hi']}]" if fv is not None and fv["k"] == "int" else "constructed with an unknown value")
             elif s["k"] == "setdiscr":
                 pass
         t = blk["t"]
@@ -1087,6 +1129,26 @@ def _analyze(self, fn, args, chain=(), subst=None, facts=None):
         self.memo.pop(key, None)
     self._inst, self._made_tag = saved_inst, (saved_flag or self._made_tag)
     return summ
+
+
+def _shift_cases(self, fn, st, rv):
+    a = self.read_op(fn, st, rv["a"])
+    c = self.read_op(fn, st, rv["b"])
+    if a["k"] != "int" or c["k"] != "int" or c["lo"] != c["hi"] or a["lo"] < 0 or not (0 < c["lo"] < 128):
+        return None
+    sh = c["lo"]
+    lo_k, hi_k = a["lo"] >> sh, a["hi"] >> sh
+    if not (1 <= hi_k - lo_k <= 7):
+        return None
+    out = []
+    for kk in range(lo_k, hi_k + 1):
+        r = dict(a)
+        r["lo"], r["hi"] = max(a["lo"], kk << sh), min(a["hi"], ((kk + 1) << sh) - 1)
+        out.append((kk, r))
+    return out
+
+
+Analyzer._shift_cases = _shift_cases
 
 
 def _any_taint(st):
@@ -1463,6 +1525,9 @@ def _eval_rv(self, fn, st, rv, stmt):
                 return a
             return mk(r[0], r[1], a["t"])
         if r:
+            fr = ty_range(rv.get("from", ""))
+            if fr and fr[0] >= r[0] and fr[1] <= r[1]:
+                return mk(fr[0], fr[1], taint_of(a))  # widening of a value about which nothing is known but its type
             return mk(r[0], r[1], taint_of(a))
         return a
     if k == "un":
@@ -2026,6 +2091,8 @@ def _std(self, fn, st, b, t, cn, last, args, dargs, targ, summ, chain, tctrl):
                     "IntoIterator::into_iter", "ToString::to_string")):
         return dargs[0] if dargs else top()
     if cn.endswith("Default::default"):
+        if ty_range(dty):
+            return const(0)
         return top_ty(dty, False)
     if cn.startswith(("core::fmt", "alloc::fmt", "core::hint")):
         return top(False)
